@@ -14,7 +14,7 @@ from ..model_ac import ModelAC
 ID = "C07"
 LEVEL = "exploration"
 SHARDS = {"quick": 8, "thorough": 16}
-RULE = ("model-based histories against a model V3 device (configuration: max connection lifetime in {None, 30 s, 600 s}, which the application may set again to the same value at any point of the history; credentials, which begin with zero bytes, passed as bytes or as hex strings); events "
+RULE = ("model-based histories against a model V3 device (configuration: max connection lifetime in {None, 30 s, 600 s}, which the application may set again to the same value at any point of the history; credentials, which begin with zero bytes, passed as bytes or as hex strings; the host's local time zone: UTC, or a zone whose daylight saving time ends or begins within the history); events "
         "from {send, send with the device silent, send answered by an error packet, send during which the peer closes, next "
         "connect refused, explicit authenticate with good credentials / bad token / bad key / while the device ignores handshakes / while the device refuses connections, a send whose handshake reply arrives damaged, sleep past 12 h, sleep past the "
         "connection lifetime, short sleep, cancel the running send/authenticate at a protocol phase}; up to 30 (quick) / 60 "
@@ -25,7 +25,7 @@ RULE = ("model-based histories against a model V3 device (configuration: max con
         "never under another connection's key, never undecodable; (3) counters start at 0, advance by one, wrap to 0 only from "
         "2^k-1 with one k <= 16 per process; (4) no data packet more than 12 h after the last genuine handshake of its "
         "connection or (when configured) more than the lifetime after its connection was opened (slack: one exchange). Long "
-        "sessions: >= 4200 (quick) / 66000 (thorough) exchanges on one connection and 70000 protocol-level writes. "
+        "sessions: >= 4200 (quick) / 66000 (thorough) exchanges on one connection (also followed by the 12 h re-authentication on that connection) and 70000 protocol-level writes. "
         "Non-trivial: the history contains a fault or expiry followed by a successful data exchange. Distinct by (config, events).")
 ASSUMPTIONS = ["every history starts with an explicit authenticate call (successful or not): that call is what marks the device as V3 for the library",
                "lifetime is configuration (set before the first connect)", "'silent' means never answered; late answers are C08's domain",
@@ -119,6 +119,8 @@ def check_history(case: dict):
     out = {"ok_after_fault": False}
 
     async def main(loop):
+        if case["config"].get("start"):
+            loop.wall_skew = vloop.seconds_from_epoch(*case["config"]["start"])
         dev = SimDevice(loop, version=3, device_id=9, token=TOKEN, key=KEY, ac=ModelAC())
         net.listen("10.0.0.9", 6444, dev)
         mode = {"kind": None, "expect": TOKEN}
@@ -252,7 +254,8 @@ def check_history(case: dict):
         except Exception:
             pass
 
-    vloop.run(main, net)
+    with vloop.host_timezone(case["config"].get("tz")):
+        vloop.run(main, net)
     return out
 
 
@@ -320,6 +323,14 @@ def check_long(case: dict):
             if not r:
                 out["v"] = ("long/empty", f"exchange #{i} returned nothing")
                 return
+        if case.get("then_reauth"):
+            # ... and the session goes on past the 12 h key lifetime: the re-authentication happens on the same connection, its
+            # handshake request takes the next counter value like any other packet
+            await asyncio.sleep(H12 + 60)
+            for i in range(3):
+                if not await lan.send(FRAME):
+                    out["v"] = ("long/empty", f"exchange #{i} after the re-authentication returned nothing")
+                    return
         out["v"] = monitor(dev, {}, None, set())
         out["conns"] = len(dev.conns)
         lan._disconnect()
@@ -377,7 +388,8 @@ def events(max_len: int):
 
 def run(ctx) -> None:
     # long sessions
-    longs = [{"long": True, "mode": "writes", "n": 70000}, {"long": True, "mode": "exchanges", "n": 4200 if ctx.quick else 66000}]
+    longs = [{"long": True, "mode": "writes", "n": 70000}, {"long": True, "mode": "exchanges", "n": 4200 if ctx.quick else 66000},
+             {"long": True, "mode": "exchanges", "n": 4200 if ctx.quick else 66000, "then_reauth": True}]
     for i, case in enumerate(longs):
         if ctx.mine(i):
             ctx.check(case, lambda c: _run_one(ctx, c))
@@ -400,6 +412,10 @@ def run(ctx) -> None:
         # ... and the 12 h limit is a hard one: 12 h + 1 min, + 20 min, + 35 min after the handshake the next exchange re-authenticates
         for extra in (60.0, 1200.0, 2100.0):
             scripts.append({"config": {"lifetime": lifetime}, "events": [["auth_good"], ["send"], ["sleep", 43200.0 + extra - 20.0], ["send"], ["send"]]})
+            # ... whatever the host's time zone does in between (end of daylight saving time during the night: local time repeats an hour)
+            for tz, start in (("CET-1CEST,M3.5.0,M10.5.0/3", [2024, 10, 26, 20, 0]), ("EST5EDT,M3.2.0,M11.1.0", [2024, 11, 3, 2, 0]),
+                              ("CET-1CEST,M3.5.0,M10.5.0/3", [2024, 3, 30, 20, 0]), ("AEST-10AEDT,M10.1.0,M4.1.0/3", [2024, 4, 6, 9, 0])):
+                scripts.append({"config": {"lifetime": lifetime, "tz": tz, "start": start}, "events": [["auth_good"], ["send"], ["sleep", 43200.0 + extra - 20.0], ["send"], ["send"]]})
         # the first exchange after an expiry is an explicit authenticate
         scripts.append({"config": {"lifetime": lifetime}, "events": [["auth_good"], ["send"], ["sleep_life", 0], ["auth_good"], ["send"]]})
         scripts.append({"config": {"lifetime": lifetime}, "events": [["auth_good"], ["send"], ["sleep_12h", 0], ["auth_good"], ["send"]]})
@@ -411,6 +427,8 @@ def run(ctx) -> None:
         if ctx.mine(i + 2):
             ctx.check(case, lambda c: _run_one(ctx, c))
     ctx.sweep("long sessions + scripted expiry histories", len(longs) + len(scripts), True)
-    cases = st.fixed_dictionaries({"config": st.fixed_dictionaries({"lifetime": st.sampled_from([None, 30, 600]), "hex": st.booleans()}),
+    zones = st.sampled_from([{}, {}, {"tz": "CET-1CEST,M3.5.0,M10.5.0/3", "start": [2024, 10, 26, 20, 0]}, {"tz": "EST5EDT,M3.2.0,M11.1.0", "start": [2024, 11, 3, 2, 0]},
+                             {"tz": "CET-1CEST,M3.5.0,M10.5.0/3", "start": [2024, 3, 30, 20, 0]}, {"tz": "NZST-12NZDT,M9.5.0,M4.1.0/3", "start": [2024, 4, 6, 6, 0]}])
+    cases = st.fixed_dictionaries({"config": st.tuples(st.fixed_dictionaries({"lifetime": st.sampled_from([None, 30, 600]), "hex": st.booleans()}), zones).map(lambda t: dict(t[0], **t[1])),
                                    "events": events(30 if ctx.quick else 60)})
     ctx.hyp("histories", cases, lambda c: _run_one(ctx, c), ctx.n(3200, 200000))
